@@ -266,9 +266,10 @@ class LineYield:
     """Source-free perturbation (thorough tiers): sys.monitoring LINE events restricted to rex/asynchronous.py inject
     sleep(0) yields at seeded statement starts, to reach interleavings inside tasks."""
 
-    def __init__(self, seed=0, p=0.05):
+    def __init__(self, seed=0, p=0.05, max_sleep=0.0):
         import rex.asynchronous as ra
 
+        self.max_sleep = max_sleep  # 0: sleep(0) (give up the GIL); > 0: a real pause of up to max_sleep seconds
         self.mon = sys.monitoring
         self.tool = self.mon.PROFILER_ID
         self.rnd = random.Random(seed)
@@ -284,9 +285,10 @@ class LineYield:
         with self.lock:
             self.lines += 1
             y = self.rnd.random() < self.p
+            dt = self.rnd.uniform(0, self.max_sleep) if (y and self.max_sleep > 0) else 0
         if y:
             self.yields += 1
-            time.sleep(0)
+            time.sleep(dt)
 
     def __enter__(self):
         self.mon.use_tool_id(self.tool, "rexmon-yield")
